@@ -23,7 +23,7 @@ int main(void)
 		line[strcspn(line, "\n")] = 0;
 		n = sscanf(line, "%31s %d %d %d %d %d", op, &a[0], &a[1], &a[2], &a[3], &a[4]);
 		if (n < 1) continue;
-		if (!strcmp(op, "NEW")) { xmp_free_context(c); c = xmp_create_context(); printf("NEW ## v 0\n"); continue; }
+		if (!strcmp(op, "NEW")) { xmp_free_context(c); c = xmp_create_context(); printf("NEW ## v 0\n"); fflush(stdout); continue; }
 		if (!strcmp(op, "LOAD")) {
 			int before = xmp_get_player(c, XMP_PLAYER_STATE);
 			sscanf(line, "%*s %2047s", sarg);
@@ -43,6 +43,7 @@ int main(void)
 				printf("LOAD %s %d", after == before ? "E" : "L", ret);
 			}
 			printf(" ## %d %d\n", ret, xmp_get_player(c, XMP_PLAYER_STATE));
+			fflush(stdout);		/* a crash in the next call must not be attributed to this one */
 			continue;
 		}
 		if (!strcmp(op, "REL")) { xmp_release_module(c); isvoid = 1; printf("REL"); }
